@@ -158,15 +158,26 @@ def reaches_register():
 
 
 def state_snapshot():
-    import bec2format.crypto as cr
-    import bec2format.bec2file as b2
-    import bec2format.bf3file as b3
-    return (tuple((k, id(v)) for k, v in sorted(vars(cr).items()) if k.startswith("_crypto__") or k.startswith("__AES") or
-                  k in ("_AES128__AES128",)),
-            tuple(id(getattr(cr, n, None)) for n in dir(cr) if "AES128" in n or "EccKey" in n or "random_bytes" in n),
-            tuple(sorted(b2.Bec2File.AUTH_BLOCK_CLS_MAP.items(), key=lambda kv: kv[0])),
-            repr(sorted(b3.BF2_TAGTYPE_MAP.items())), repr(sorted(b3.BF2_INTERFACES.items())),
-            repr(sorted(b2.EccEncryptor.DEFAULT_PUBLIC_KEYS.items())))
+    """library-global state: every module-level container / scalar and every class-level
+    container of the bec2format package, plus the identity of the registered plug-ins"""
+    import sys
+    import types
+    out = []
+    for name in sorted(m for m in sys.modules if m == "bec2format" or m.startswith("bec2format.")):
+        mod = sys.modules[name]
+        for k, v in sorted(vars(mod).items()):
+            if k.startswith("__") and k.endswith("__"):
+                continue
+            if isinstance(v, (dict, list, set, tuple, bytes, int, str, frozenset)) or v is None:
+                out.append((name, k, repr(v)))
+            elif isinstance(v, type) and getattr(v, "__module__", None) == name:
+                for ck, cv in sorted(vars(v).items()):
+                    if isinstance(cv, (dict, list, set, tuple, bytes, int, str)):
+                        out.append((name, k + "." + ck, repr(cv)))
+                out.append((name, k, id(v)))
+            elif isinstance(v, (types.FunctionType, type)):
+                out.append((name, k, id(v)))
+    return tuple(out)
 
 
 def search(ctx):
